@@ -113,6 +113,13 @@ def enumerate_cases(tier, seed):
                            min_po2=mn, max_po2=mx, pts=False, keep_negative=True, symmetric=1)
                   if _valid(c, shape):
                     out.append(dict(rank=rank, fam=fam, **c))
+  # the route every Q layer takes: the quantizer is built with alpha=None (and, for quantized_linear, the asymmetric
+  # range), used once, and then switched to alpha='auto_po2', symmetric=True by the layer hook _set_trainable_parameter;
+  # the object must then satisfy every clause of the configuration it now reports
+  for c in list(out):
+    if c["alpha"] == "auto_po2" and c["symmetric"] == 1 and c["keep_negative"] is True and not c["pts"] \
+        and c["bits"] in (4, 8) and c["min_po2"] is None and c["max_po2"] is None and c["eps"] is None:
+      out.append(dict(c, route="hook"))
   seen, uniq = set(), []
   for c in out:
     key = repr(sorted(c.items(), key=lambda kv: kv[0]))
@@ -130,6 +137,17 @@ def pts_array(shape):
 
 def make(cfg, shape):
   from qkeras import quantizers as Q  # pylint: disable=import-outside-toplevel
+  if cfg.get("route") == "hook":
+    tf = common.tf_init()
+    if cfg["cls"] == "quantized_bits":
+      q = Q.quantized_bits(bits=cfg["bits"], integer=cfg["integer"], alpha=None, scale_axis=cfg["scale_axis"],
+                           elements_per_scale=cfg["eps"])
+    else:
+      q = Q.quantized_linear(bits=cfg["bits"], integer=cfg["integer"], alpha=None, scale_axis=cfg["scale_axis"],
+                             keep_negative=True, symmetric=0)
+    q(tf.ones(shape))
+    q._set_trainable_parameter()   # pylint: disable=protected-access
+    return q
   if cfg["cls"] == "quantized_bits":
     return Q.quantized_bits(bits=cfg["bits"], integer=cfg["integer"], alpha=cfg["alpha"],
                             scale_axis=cfg["scale_axis"], elements_per_scale=cfg["eps"],
@@ -179,7 +197,8 @@ def run_case(cfg):
 
   def bad(clause, what, **detail):
     if len(viol) < 8:
-      viol.append({"key": "%s:%s:%s" % (cfg["cls"], clause, cfg["alpha"] + (":frozen" if cfg["pts"] else "")),
+      viol.append({"key": "%s:%s:%s" % (cfg["cls"], clause, cfg["alpha"] + (":frozen" if cfg["pts"] else "") +
+                                          (":via-layer-hook" if cfg.get("route") else "")),
                    "what": "%s %s: %s" % (cfg["cls"], clause, what), "detail": dict(cfg=cfg, **detail)})
 
   evals = 0
